@@ -60,7 +60,8 @@ SetupOps(c) ==
 AuditOps(c, a) ==
   << [op |-> "GetObject", b |-> B, k |-> UploadKey(a)],
      [op |-> "GetObject", b |-> B, k |-> K],
-     [op |-> "ListObjects", b |-> B, v2 |-> FALSE, prefix |-> <<>>, delim |-> <<>>, max |-> 0, marker |-> <<>>, hasMarker |-> FALSE] >>
+     [op |-> "ListObjects", b |-> B, v2 |-> FALSE, prefix |-> <<>>, delim |-> <<>>, max |-> 0, marker |-> <<>>, hasMarker |-> FALSE],
+     [op |-> "ListObjects", b |-> B, v2 |-> FALSE, prefix |-> <<>>, delim |-> <<47>>, max |-> 0, marker |-> <<>>, hasMarker |-> FALSE] >>
   \o (IF c.t = "part" THEN << [op |-> "ListParts", b |-> B, k |-> K, uid |-> "u1", marker |-> 0, max |-> 0] >> ELSE <<>>)
 
 RECURSIVE Run(_, _, _)
@@ -86,7 +87,18 @@ AllOps(c) ==
   SetupOps(c) \o Flatten([i \in 1..Len(as) |->
        <<as[i]>> \o AuditOps(c, as[i]) \o (IF Accepted(as[i]) /\ ~(c.t = "part" /\ c.p = "absent") THEN Restore(c) ELSE <<>>)])
 
-Tour(c) == [h |-> Run(Init0, AllOps(c), 1).h]
+\* part uploads: at the end the upload is completed with the part it holds and the object read back --
+\* a refused re-upload must not have touched the bytes of the part that stayed
+FinalOps(c, s) ==
+  IF c.t = "part" /\ "u1" \in DOMAIN s.up /\ 1 \in DOMAIN s.up["u1"].parts
+    THEN << [op |-> "Complete", b |-> B, k |-> K, uid |-> "u1", vid |-> "",
+             list |-> <<[n |-> 1, body |-> s.up["u1"].parts[1]]>>],
+            [op |-> "GetObject", b |-> B, k |-> K] >>
+    ELSE <<>>
+Tour(c) ==
+  LET main == Run(Init0, AllOps(c), 1)
+      fin  == Run(main.st, FinalOps(c, main.st), 1)
+  IN [h |-> main.h \o fin.h]
 
 Init == case \in Cases
 Next == UNCHANGED case
